@@ -44,7 +44,7 @@ ENTRIES = {
 def params(ck):
     # chunks, runs per chunk, ops, universe length, random subsets per crash point, and the number of
     # unsynced writes up to which every survivor subset is enumerated instead of sampled
-    return (1, 12, 12, 14, 3, 5) if ck.quick else (8, 4, 30, 24, 4, 7)
+    return (1, 12, 12, 14, 3, 5) if ck.quick else (5, 4, 30, 24, 4, 7)
 
 
 def slim(run_lines, idx):
@@ -84,7 +84,7 @@ def validate(ck, trace, meta):
 def run(ck):
     hb = ck.build("h-redb")
     # 1. the design, exhaustively in the small scope; the mutants must be refuted (the invariant is not vacuous)
-    over = {"MaxOps": 2, "MaxCrashes": 1} if ck.quick else {"MaxOps": 3, "MaxCrashes": 1}
+    over = {"MaxOps": 2, "MaxCrashes": 1} if ck.quick else {"MaxOps": 4, "MaxCrashes": 1}
     ck.tlc_mc("MC_StoreCrash", ck.cfg_with("MC_StoreCrash.cfg", over),
               required_actions=["Begin", "Step", "Ack", "Crash"], timeout=2400)
     for cfg in ("MC_StoreCrash_split.cfg", "MC_StoreCrash_nodur.cfg"):
